@@ -100,6 +100,18 @@ CLAIMS = {
         "x scalars, every call-site range with extremal sign patterns, and the F3 family.",
    note=TB + "F3 was a genuine defect, repaired in /repo by fix: 4f7cc8d.",
    tech="Lean 4 proof by induction over butterfly layers with a magnitude invariant + kernel-evaluated refutation + hook-level differential execution against schoolbook multiplication"),
+ 'C16': dict(cat='other', ref='DESIGN 5 C16',
+   text="Thin model + observation. Lean (decide over the declaration inventory regenerated from src/types.rs, plus layout arithmetic for all K, L): every struct reachable from the key types derives Zeroize and ZeroizeOnDrop, skips no "
+        "field, has only u8 / i32 / struct-array leaves, and the fields tile the object exactly (no padding byte outside a zeroised field). What the zeroize derive and the compiler really do is not modelled; it is observed on every run: "
+        "each key object (generated, round-tripped, deserialised, derived; all sets; both profiles) is dropped in place and all size_of bytes are read back - zero non-zero bytes, size_of equal to the model layout.",
+   note="Trusted: Lean kernel for the inventory theorems; the translator's struct parser; the zeroize crate; that reading the storage after ManuallyDrop::drop observes what a later reader of that memory would see.",
+   tech="Lean 4 decide over a regenerated declaration inventory + layout arithmetic + post-drop memory observation"),
+ 'C17': dict(cat='other', ref='DESIGN 5 C17',
+   text="Finite model + exhaustive builds. Lean (decide over the cfg-gate inventory regenerated from Cargo.toml and src/*.rs, for all 28 configurations): gates sit only on parameter-set modules, the OsRng import and its three users "
+        "(same predicate), the dudect entry point and test modules; none inside the algorithmic modules; at least one set module enabled; OS-RNG wrappers are single delegating calls. rustc's lints and name resolution are not modelled; "
+        "all 28 configurations are really built (cargo check with the crate's deny(warnings, dead_code, ..)) on every run, and a known-answer digest program is built and run per configuration and compared with the default one.",
+   note="Trusted: Lean kernel for the inventory theorems; the translator's cfg scanner; cargo/rustc offline determinism. Feature verif-hooks is outside the property's matrix.",
+   tech="Lean 4 decide over a regenerated cfg inventory x 28 configurations + 28 real builds + per-configuration known-answer digests"),
 }
 
 ORDER = ['C%02d' % i for i in range(1, 19)]
